@@ -25,6 +25,15 @@ class Fragments:
 
         i = bisect_right(self.begin_of_fragments, position) - 1
         L = len(string)
+        if not L:
+            # an empty fragment occupies no byte: it cannot collide with
+            # anything and it must not replace what is already stored at
+            # that position, it only marks how far the output extends
+            self.begin_of_fragments.insert(i + 1, position)
+            self.fragments.setdefault(position, string)
+            self.current_offset = position
+            return
+
         if self.fragments:
             # empty fragments occupy no byte: look through them to find the
             # closest fragments that really hold data
